@@ -107,7 +107,7 @@ End Prims.
 (* ---------------------------------------------------------------------- *)
 Section Proofs.
   Variable A : Type.
-  Notation cellmat := (cellmat A).
+  Notation cellmat := (list (list (list A))).
 
   (* -------------------------------------------------------------- *)
   (* validate() accepts canonical representations *)
@@ -217,4 +217,1179 @@ Section Proofs.
     rewrite <- Hr. replace (j + 1) with (S j) by lia.
     rewrite tslice_concat_one; [reflexivity|]. rewrite <- (map_length (@length A)), Hr. assumption.
   Qed.
+
+  (* -------------------------------------------------------------- *)
+  (* MultiNestedTensor.cat, dim = 0 *)
+  Variable junk_o : nat -> nat.
+  Variable junk_v : nat -> A.
+
+  Lemma offs_app_shift : forall L1 L2 acc,
+    map (fun o => o + acc) (0 :: cumsum (L1 ++ L2)) =
+    map (fun o => o + acc) (starts L1) ++ map (fun o => o + (acc + sum L1)) (0 :: cumsum L2).
+  Proof.
+    intros L1 L2 acc. rewrite (offs_starts (L1 ++ L2)), (offs_starts L2), starts_app, sum_app.
+    rewrite !map_app, map_map. simpl. rewrite <- app_assoc. f_equal. f_equal.
+    - apply map_ext. intros; lia.
+    - f_equal. lia.
+  Qed.
+
+  Lemma removelast_offs : forall L, removelast (0 :: cumsum L) = starts L.
+  Proof. intros. rewrite offs_starts. apply removelast_last. Qed.
+
+  Lemma last_error_offs : forall L, last_error (0 :: cumsum L) = Some (sum L).
+  Proof.
+    intros. rewrite offs_starts. destruct (starts L) as [|x l] eqn:E; simpl; [reflexivity|].
+    f_equal. apply (last_last l (sum L) x).
+  Qed.
+
+  Lemma mnt_cat0_offsets_canon : forall c (ms : list cellmat), ms <> [] ->
+    forall pfx rest accum,
+    length rest = S (length (concat (concat ms))) ->
+    mnt_cat0_offsets A (map (mnt_of_cells c) ms) (pfx ++ rest) accum (length pfx) =
+    Some (pfx ++ map (fun o => o + accum) (0 :: cumsum (map (@length A) (concat (concat ms))))).
+  Proof.
+    intros c ms. induction ms as [|m ms IH]; intros Hne pfx rest accum Hlen; [congruence|].
+    destruct ms as [|m2 ms'].
+    - change (map (mnt_of_cells c) [m]) with [mnt_of_cells c m].
+      cbn [mnt_cat0_offsets offs mnt_of_cells]. cbn [concat] in *. rewrite app_nil_r in *.
+      apply write_tail_seg. rewrite map_length, offs_length, map_length. assumption.
+    - change (map (mnt_of_cells c) (m :: m2 :: ms')) with (mnt_of_cells c m :: map (mnt_of_cells c) (m2 :: ms')).
+      cbn [mnt_cat0_offsets]. change (map (mnt_of_cells c) (m2 :: ms')) with
+        (mnt_of_cells c m2 :: map (mnt_of_cells c) ms') at 1. cbv iota.
+      change (mnt_of_cells c m2 :: map (mnt_of_cells c) ms') with (map (mnt_of_cells c) (m2 :: ms')).
+      cbn [offs mnt_of_cells].
+      rewrite removelast_offs, last_error_offs.
+      set (L1 := map (@length A) (concat m)).
+      set (R := concat (m2 :: ms')) in *.
+      assert (Hcc : concat (concat (m :: m2 :: ms')) = concat m ++ concat R).
+      { unfold R. cbn [concat]. rewrite concat_app. reflexivity. }
+      rewrite Hcc in *. rewrite app_length in Hlen.
+      assert (Hcut : exists old rest', rest = old ++ rest' /\ length old = length L1
+                                       /\ length rest' = S (length (concat R))).
+      { exists (firstn (length L1) rest), (skipn (length L1) rest).
+        unfold L1. rewrite map_length, firstn_skipn, firstn_length, skipn_length. repeat split; lia. }
+      destruct Hcut as [old [rest' [-> [Hold Hrest']]]].
+      rewrite (write_at_seg (map (fun o => o + accum) (starts L1)) old pfx rest')
+        by (rewrite map_length, starts_length; assumption).
+      cbn [obind]. rewrite starts_length.
+      replace (length pfx + length L1) with (length (pfx ++ map (fun o => o + accum) (starts L1)))
+        by (rewrite app_length, map_length, starts_length; reflexivity).
+      rewrite app_assoc.
+      rewrite IH by (try discriminate; assumption).
+      rewrite map_app, offs_app_shift. fold L1. rewrite <- app_assoc.
+      unfold L1. rewrite <- sum_map_length_concat. fold R. reflexivity.
+  Qed.
+
+  Lemma rect_concat : forall c (ms : list cellmat), Forall (rect c) ms -> rect c (concat ms).
+  Proof. intros. apply Forall_concat. assumption. Qed.
+
+  Lemma forallb_map_true : forall {B C} (f : C -> bool) (g : B -> C) (l : list B),
+    (forall x, f (g x) = true) -> forallb f (map g l) = true.
+  Proof. intros B C f g l H. induction l; simpl; auto. rewrite H, IHl. reflexivity. Qed.
+
+  Lemma concat3_map : forall (ms : list cellmat),
+    concat (map (fun m => concat (concat m)) ms) = concat (concat (concat ms)).
+  Proof.
+    induction ms as [|m ms IH]; simpl; auto. rewrite !concat_app, IH. reflexivity.
+  Qed.
+
+  Lemma map_add0 : forall l, map (fun o => o + 0) l = l.
+  Proof. intros. rewrite <- (map_id l) at 2. apply map_ext. intros; lia. Qed.
+
+  Lemma mnt_cat0_canon : forall c (ms : list cellmat), Forall (rect c) ms -> ms <> [] ->
+    mnt_cat0 A junk_o (map (mnt_of_cells c) ms) = Some (mnt_of_cells c (concat ms)).
+  Proof.
+    intros c ms H Hne.
+    assert (Hr : rect c (concat ms)) by (apply rect_concat; assumption).
+    assert (Hoff := mnt_cat0_offsets_canon c ms Hne [] (empty_buf junk_o (length (concat ms) * c + 1)) 0).
+    rewrite map_add0 in Hoff. simpl app in Hoff. simpl length in Hoff.
+    unfold mnt_cat0. destruct ms as [|m0 ms']; [congruence|].
+    remember (m0 :: ms') as ms eqn:Ems.
+    rewrite Ems at 1. cbn [map].
+    cbn [nc mnt_of_cells].
+    rewrite (forallb_map_true (fun x => nc x =? c) (mnt_of_cells c)) by (intros; simpl; apply Nat.eqb_refl).
+    rewrite !map_map. cbn [nr vals mnt_of_cells].
+    unfold RaggedSpec.cellmat in *.
+    change (fun x : list (list (list A)) => length x) with (@length (list (list A))).
+    rewrite <- sum_map_length_concat, concat3_map.
+    rewrite Hoff.
+    - cbn [obind]. apply mk_mnt_canon. assumption.
+    - unfold empty_buf. rewrite map_length, seq_length. rewrite (rect_concat_length c _ Hr). lia.
+  Qed.
+
+  (* -------------------------------------------------------------- *)
+  (* MultiEmbeddingTensor.cat *)
+  Lemma sum_concat : forall (l : list (list nat)), sum (concat l) = sum (map sum l).
+  Proof. induction l as [|x l IH]; simpl; auto. rewrite sum_app, IH. reflexivity. Qed.
+
+  Lemma length_concat_sum : forall {B} (l : list (list B)), length (concat l) = sum (map (@length B) l).
+  Proof. intros. apply sum_map_length_concat. Qed.
+
+  Lemma met_cat0_canon : forall ws (ms : list cellmat), ms <> [] ->
+    met_cat0 A (map (met_of_cells ws) ms) = Some (met_of_cells ws (concat ms)).
+  Proof.
+    intros ws ms Hne. destruct ms as [|m0 [|m1 ms']]; [congruence| |].
+    - simpl. rewrite app_nil_r. reflexivity.
+    - remember (m0 :: m1 :: ms') as ms eqn:Ems.
+      unfold met_cat0. rewrite Ems at 1. cbn [map]. cbv iota. cbn [ec met_of_cells].
+      replace (met_of_cells ws m1 :: map (met_of_cells ws) ms') with (map (met_of_cells ws) (m1 :: ms')) by reflexivity.
+      rewrite (forallb_map_true (fun x => ec x =? length ws) (met_of_cells ws)) by (intros; simpl; apply Nat.eqb_refl).
+      unfold t2_cat0. rewrite Ems at 1. cbn [map]. cbn [evals met_of_cells t2w].
+      replace (MkT2 (map (@concat A) m1) (sum ws) :: map (@evals A) (map (met_of_cells ws) ms'))
+        with (map (fun m => MkT2 (map (@concat A) m) (sum ws)) (m1 :: ms'))
+        by (simpl; rewrite map_map; reflexivity).
+      rewrite (forallb_map_true (fun v => t2w v =? sum ws)) by (intros; simpl; apply Nat.eqb_refl).
+      cbn [obind]. rewrite !map_map. cbn [evals met_of_cells t2rows er eoffs].
+      unfold RaggedSpec.cellmat in *.
+      change (fun x : list (list (list A)) => length x) with (@length (list (list A))).
+      rewrite <- sum_map_length_concat. rewrite <- concat_map.
+      apply mk_met_canon.
+  Qed.
+
+  Lemma cumsum_from_shift : forall l a, cumsum_from a l = map (fun x => x + a) (cumsum_from 0 l).
+  Proof.
+    intros l a. rewrite !cumsum_from_spec, map_map. apply map_ext. intros; lia.
+  Qed.
+
+  Lemma cumsum_from_app : forall l1 l2 a,
+    cumsum_from a (l1 ++ l2) = cumsum_from a l1 ++ cumsum_from (a + sum l1) l2.
+  Proof.
+    induction l1 as [|x l1 IH]; intros l2 a; simpl.
+    - rewrite Nat.add_0_r. reflexivity.
+    - rewrite IH. do 3 f_equal. lia.
+  Qed.
+
+  Lemma cumsum_app : forall l1 l2, cumsum (l1 ++ l2) = cumsum l1 ++ map (fun x => x + sum l1) (cumsum l2).
+  Proof.
+    intros l1 l2. unfold cumsum. rewrite cumsum_from_app. simpl. f_equal. apply cumsum_from_shift.
+  Qed.
+
+  Definition met_of_pair (p : list nat * cellmat) : met A := met_of_cells (fst p) (snd p).
+
+  Lemma met_cat1_offsets_canon : forall (ps : list (list nat * cellmat)) W,
+    met_cat1_offsets A (map met_of_pair ps) (0 :: cumsum W) = Some (0 :: cumsum (W ++ concat (map fst ps))).
+  Proof.
+    induction ps as [|[ws m] ps IH]; intros W.
+    - simpl. rewrite app_nil_r. reflexivity.
+    - cbn [map met_cat1_offsets]. rewrite last_error_offs. cbn [obind].
+      change (met_of_pair (ws, m)) with (met_of_cells ws m). cbn [eoffs met_of_cells tl].
+      replace ((0 :: cumsum W) ++ map (fun o => o + sum W) (cumsum ws)) with (0 :: cumsum (W ++ ws))
+        by (rewrite cumsum_app; reflexivity).
+      rewrite IH. cbn [concat fst]. rewrite app_assoc. reflexivity.
+  Qed.
+
+  Lemma hcat_single : forall (m : cellmat), hcat (length m) [m] = m.
+  Proof.
+    intros m. unfold hcat. simpl.
+    transitivity (map (fun r => nth r m []) (seq 0 (length m))).
+    - apply map_ext. intros. apply app_nil_r.
+    - symmetry. apply map_nth_seq.
+  Qed.
+
+  Lemma forallb_map_Forall : forall {B C} (f : C -> bool) (g : B -> C) (l : list B),
+    Forall (fun x => f (g x) = true) l -> forallb f (map g l) = true.
+  Proof. intros B C f g l H. induction H; simpl; auto. rewrite H, IHForall. reflexivity. Qed.
+
+  Lemma nth_map_concat : forall {B} (m : list (list (list B))) r,
+    nth r (map (@concat B) m) [] = concat (nth r m []).
+  Proof. intros. change (@nil B) with (concat (@nil (list B))) at 1. apply map_nth. Qed.
+
+  Lemma met_cat1_canon : forall n (ps : list (list nat * cellmat)), ps <> [] ->
+    Forall (fun p => length (snd p) = n) ps ->
+    met_cat1 A (map met_of_pair ps) = Some (met_of_cells (concat (map fst ps)) (hcat n (map snd ps))).
+  Proof.
+    intros n ps Hne Hn. destruct ps as [|p0 [|p1 ps']]; [congruence| |].
+    - destruct p0 as [ws m]. inversion Hn; subst. simpl in *.
+      rewrite app_nil_r. subst. rewrite hcat_single. reflexivity.
+    - remember (p0 :: p1 :: ps') as ps eqn:Ems.
+      assert (Hn0 : length (snd p0) = n) by (rewrite Ems in Hn; inversion Hn; assumption).
+      assert (Hn' : Forall (fun p => length (snd p) = n) (p1 :: ps')) by (rewrite Ems in Hn; inversion Hn; assumption).
+      assert (Hoff := met_cat1_offsets_canon ps []). simpl app in Hoff.
+      unfold met_cat1. rewrite Ems at 1. cbn [map]. cbv iota.
+      replace (met_of_pair p1 :: map met_of_pair ps') with (map met_of_pair (p1 :: ps')) by reflexivity.
+      replace (met_of_pair p0 :: map met_of_pair (p1 :: ps')) with (map met_of_pair ps) by (rewrite Ems; reflexivity).
+      change (er (met_of_pair p0)) with (length (snd p0)). rewrite Hn0.
+      rewrite forallb_map_Forall.
+      2: { eapply Forall_impl; [|exact Hn']. intros p Hp. apply Nat.eqb_eq. exact Hp. }
+      change [0] with (0 :: cumsum []). rewrite Hoff.
+      (* values *)
+      unfold t2_cat1. rewrite Ems at 1. cbn [map].
+      change (t2rows (evals (met_of_pair p0))) with (map (@concat A) (snd p0)). rewrite map_length, Hn0.
+      replace (evals (met_of_pair p1) :: map (@evals A) (map met_of_pair ps'))
+        with (map (fun p => evals (met_of_pair p)) (p1 :: ps'))
+        by (simpl; rewrite map_map; reflexivity).
+      rewrite forallb_map_Forall.
+      2: { eapply Forall_impl; [|exact Hn']. intros p Hp. apply Nat.eqb_eq.
+           change (t2rows (evals (met_of_pair p))) with (map (@concat A) (snd p)). rewrite map_length. exact Hp. }
+      cbn [obind].
+      rewrite <- (mk_met_canon (concat (map fst ps)) (hcat n (map snd ps))).
+      unfold hcat at 1. rewrite map_length, seq_length.
+      f_equal.
+      + rewrite !map_map. cbn [ec met_of_pair met_of_cells]. rewrite length_concat_sum, map_map. reflexivity.
+      + f_equal.
+        * unfold hcat. rewrite (map_map _ (@concat A)). apply map_ext. intros r.
+          rewrite <- concat_concat_map. rewrite !map_map. f_equal. apply map_ext. intros p.
+          change (t2rows (evals (met_of_pair p))) with (map (@concat A) (snd p)). apply nth_map_concat.
+        * rewrite sum_concat, !map_map. reflexivity.
+  Qed.
+
+  (* -------------------------------------------------------------- *)
+  (* rejections *)
+  Lemma mnt_cat0_mismatch : forall x0 rest x, In x rest -> nc x <> nc x0 ->
+    mnt_cat0 A junk_o (x0 :: rest) = None.
+  Proof.
+    intros x0 rest x Hin Hx. unfold mnt_cat0.
+    rewrite (forallb_exists_false _ rest x Hin); [reflexivity|]. apply Nat.eqb_neq. assumption.
+  Qed.
+
+  Lemma mnt_cat1_mismatch : forall x0 rest x, In x rest -> nr x <> nr x0 ->
+    mnt_cat1 A junk_o junk_v (x0 :: rest) = None.
+  Proof.
+    intros x0 rest x Hin Hx. unfold mnt_cat1.
+    rewrite (forallb_exists_false _ rest x Hin); [reflexivity|]. apply Nat.eqb_neq. assumption.
+  Qed.
+
+  Lemma met_cat0_mismatch : forall x0 rest x, In x rest -> ec x <> ec x0 -> met_cat0 A (x0 :: rest) = None.
+  Proof.
+    intros x0 rest x Hin Hx. unfold met_cat0. destruct rest as [|x1 rest']; [contradiction|].
+    rewrite (forallb_exists_false _ (x1 :: rest') x Hin); [reflexivity|]. apply Nat.eqb_neq. assumption.
+  Qed.
+
+  Lemma met_cat1_mismatch : forall x0 rest x, In x rest -> er x <> er x0 -> met_cat1 A (x0 :: rest) = None.
+  Proof.
+    intros x0 rest x Hin Hx. unfold met_cat1. destruct rest as [|x1 rest']; [contradiction|].
+    rewrite (forallb_exists_false _ (x1 :: rest') x Hin); [reflexivity|]. apply Nat.eqb_neq. assumption.
+  Qed.
+
+  (* -------------------------------------------------------------- *)
+  (* clone *)
+  Lemma mnt_clone_canon : forall c (m : cellmat), rect c m ->
+    mnt_clone A (mnt_of_cells c m) = Some (mnt_of_cells c m).
+  Proof. intros. unfold mnt_clone. cbn [nr nc vals offs mnt_of_cells]. apply mk_mnt_canon. assumption. Qed.
+
+  Lemma met_clone_canon : forall ws (m : cellmat),
+    met_clone A (met_of_cells ws m) = Some (met_of_cells ws m).
+  Proof. intros. unfold met_clone. cbn [er ec evals eoffs met_of_cells]. apply mk_met_canon. Qed.
+
+  (* -------------------------------------------------------------- *)
+  (* MultiEmbeddingTensor.fillna_col *)
+  Lemma skipn_nth_cons : forall {B} (l : list B) j d, j < length l -> skipn j l = nth j l d :: skipn (S j) l.
+  Proof.
+    intros B l; induction l as [|x l IH]; intros j d H; simpl in H; [lia|].
+    destruct j; [reflexivity|]. simpl. apply IH. lia.
+  Qed.
+
+  Lemma met_fillna_col_canon : forall is_na fill ws (m : cellmat) j, rect_w ws m -> j < length ws ->
+    met_fillna_col A is_na (met_of_cells ws m) j fill = Some (met_of_cells ws (fill_cells is_na fill j m)).
+  Proof.
+    intros is_na fill ws m j H Hj. unfold met_fillna_col, met_of_cells. cbn [eoffs evals t2rows t2w er ec].
+    rewrite !tget_offs by lia. cbn [obind]. unfold fill_cells. rewrite map_length. do 3 f_equal.
+    rewrite !map_map. apply map_ext_in. intros row Hrow.
+    assert (Hr : map (@length A) row = ws) by (unfold rect_w in H; rewrite Forall_forall in H; auto).
+    assert (Hl : length row = length ws) by (rewrite <- Hr, map_length; reflexivity).
+    rewrite <- Hr. replace (j + 1) with (S j) by lia.
+    rewrite firstn_concat, tslice_concat_one by lia.
+    replace (Nat.max (pre (map (@length A) row) j) (pre (map (@length A) row) (S j)))
+      with (pre (map (@length A) row) (S j)) by (pose proof (pre_mono (map (@length A) row) j (S j)); lia).
+    rewrite skipn_concat. unfold upd_nth. rewrite (skipn_nth_cons row j []) by lia.
+    rewrite concat_app. reflexivity.
+  Qed.
+
+  (* -------------------------------------------------------------- *)
+  (* _cat_tensor_data *)
+  Lemma cat_tensor_data_nil : forall d, cat_tensor_data A junk_o junk_v [] d = None.
+  Proof. reflexivity. Qed.
+  Lemma cat_tensor_data_single : forall x d, cat_tensor_data A junk_o junk_v [x] d = Some x.
+  Proof. reflexivity. Qed.
+
+  Lemma mapM_as_mnt : forall ts : list (mnt A), mapM (as_mnt A) (map TMnt ts) = Some ts.
+  Proof. induction ts as [|t ts IH]; simpl; auto. rewrite IH. reflexivity. Qed.
+  Lemma mapM_as_met : forall ts : list (met A), mapM (as_met A) (map TMet ts) = Some ts.
+  Proof. induction ts as [|t ts IH]; simpl; auto. rewrite IH. reflexivity. Qed.
+
+  Lemma cat_tensor_data_mnt : forall t0 t1 ts d,
+    cat_tensor_data A junk_o junk_v (map TMnt (t0 :: t1 :: ts)) d =
+    option_map TMnt (mnt_cat A junk_o junk_v (t0 :: t1 :: ts) d).
+  Proof.
+    intros. unfold cat_tensor_data. cbn [map]. cbv iota.
+    change (TMnt t0 :: TMnt t1 :: map TMnt ts) with (map (@TMnt A) (t0 :: t1 :: ts)).
+    rewrite mapM_as_mnt. reflexivity.
+  Qed.
+  Lemma cat_tensor_data_met : forall t0 t1 ts d,
+    cat_tensor_data A junk_o junk_v (map TMet (t0 :: t1 :: ts)) d =
+    option_map TMet (met_cat A (t0 :: t1 :: ts) d).
+  Proof.
+    intros. unfold cat_tensor_data. cbn [map]. cbv iota.
+    change (TMet t0 :: TMet t1 :: map TMet ts) with (map (@TMet A) (t0 :: t1 :: ts)).
+    rewrite mapM_as_met. reflexivity.
+  Qed.
+
+  (* -------------------------------------------------------------- *)
+  (* scattering whole cells: windows of a flat list of cells *)
+  Lemma split3 : forall {B} (F : list B) a w,
+    F = firstn a F ++ tslice F a (a + w) ++ skipn (a + w) F.
+  Proof.
+    intros B F a w. unfold tslice. replace (a + w - a) with w by lia.
+    rewrite <- (skipn_skipn' F w a), firstn_skipn, firstn_skipn. reflexivity.
+  Qed.
+
+  Lemma scatter_app' : forall (i1 i2 : list nat) (s1 s2 : list A) buf b,
+    scatter buf i1 s1 = Some b -> scatter buf (i1 ++ i2) (s1 ++ s2) = scatter b i2 s2.
+  Proof.
+    induction i1 as [|i i1 IH]; intros i2 s1 s2 buf b H; destruct s1 as [|v s1]; simpl in *; try discriminate.
+    - injection H as <-. reflexivity.
+    - destruct (i <? length buf); [|discriminate]. apply IH. assumption.
+  Qed.
+
+  Lemma scatter_window : forall (F new : list (list A)) a w,
+    a + w <= length F -> map (@length A) new = map (@length A) (tslice F a (a + w)) ->
+    scatter (concat F) (seq (pre (map (@length A) F) a)
+                            (pre (map (@length A) F) (a + w) - pre (map (@length A) F) a)) (concat new)
+    = Some (concat (firstn a F ++ new ++ skipn (a + w) F))
+    /\ map (@length A) (firstn a F ++ new ++ skipn (a + w) F) = map (@length A) F.
+  Proof.
+    intros F new a w Haw Hnew. split.
+    - assert (Hcnt : pre (map (@length A) F) (a + w) - pre (map (@length A) F) a = length (concat new)).
+      { rewrite (sum_map_length_concat new), Hnew, <- sum_map_length_concat.
+        rewrite <- tslice_concat by lia. rewrite tslice_length by apply pre_le_length. reflexivity. }
+      rewrite Hcnt. rewrite pre_map_length.
+      rewrite (split3 F a w) at 1. rewrite !concat_app.
+      rewrite scatter_seq.
+      + reflexivity.
+      + rewrite !sum_map_length_concat, Hnew. reflexivity.
+    - rewrite !map_app, Hnew, <- !map_app, <- split3. reflexivity.
+  Qed.
+
+  (* rows of a rectangular matrix inside its flattening *)
+  Notation rows_of := (@rectl (list A)).
+
+  Lemma rows_split : forall C M r, rows_of C M -> r < length M ->
+    concat M = concat (firstn r M) ++ nth r M [] ++ concat (skipn (S r) M)
+    /\ length (concat (firstn r M)) = r * C /\ length (nth r M []) = C.
+  Proof.
+    intros C M r H Hr. split; [|split].
+    - rewrite <- (firstn_skipn r M) at 1. rewrite concat_app, (skipn_nth_cons M r []) by assumption. reflexivity.
+    - assert (Hf : rectl C (firstn r M)).
+      { unfold rectl, rows_of in *. rewrite Forall_forall in *. intros x Hx. apply H. eapply In_firstn. exact Hx. }
+      rewrite (rect_concat_length C _ Hf), firstn_length. f_equal. lia.
+    - unfold rows_of in H. rewrite Forall_forall in H. apply H. apply nth_In. assumption.
+  Qed.
+
+  Lemma rect_window : forall C M r c0 c (new : list (list A)), rows_of C M -> r < length M -> c0 + c <= C ->
+    firstn (r * C + c0) (concat M) ++ new ++ skipn (r * C + c0 + c) (concat M) =
+      concat (set_nth M r (firstn c0 (nth r M []) ++ new ++ skipn (c0 + c) (nth r M [])))
+    /\ tslice (concat M) (r * C + c0) (r * C + c0 + c) = tslice (nth r M []) c0 (c0 + c).
+  Proof.
+    intros C M r c0 c new H Hr Hc. destruct (rows_split C M r H Hr) as [E [HX HR]].
+    set (X := concat (firstn r M)) in *. set (R := nth r M []) in *. set (Y := concat (skipn (S r) M)) in *.
+    assert (F1 : firstn (r * C + c0) (X ++ R ++ Y) = X ++ firstn c0 R).
+    { rewrite firstn_app, firstn_all2 by lia. f_equal. rewrite HX.
+      replace (r * C + c0 - r * C) with c0 by lia. rewrite firstn_app.
+      replace (c0 - length R) with 0 by lia. simpl. apply app_nil_r. }
+    assert (F2 : forall k, C <= c0 + k -> skipn (r * C + c0 + k) (X ++ R ++ Y) = skipn (c0 + k) R ++ skipn (c0 + k - C) Y).
+    { intros k Hk. rewrite skipn_app, skipn_all2 by lia. simpl. rewrite HX.
+      replace (r * C + c0 + k - r * C) with (c0 + k) by lia. rewrite skipn_app, HR. reflexivity. }
+    assert (F3 : skipn (r * C + c0) (X ++ R ++ Y) = skipn c0 R ++ Y).
+    { rewrite skipn_app, skipn_all2 by lia. simpl. rewrite HX.
+      replace (r * C + c0 - r * C) with c0 by lia. rewrite skipn_app, HR.
+      replace (c0 - C) with 0 by lia. reflexivity. }
+    split.
+    - rewrite E, F1. unfold set_nth. rewrite concat_app. cbn [concat]. fold X Y.
+      rewrite <- !app_assoc. f_equal. f_equal. f_equal.
+      rewrite skipn_app, skipn_all2 by lia. simpl. rewrite HX.
+      replace (r * C + c0 + c - r * C) with (c0 + c) by lia. rewrite skipn_app, HR.
+      replace (c0 + c - C) with 0 by lia. reflexivity.
+    - rewrite E. unfold tslice. rewrite F3.
+      replace (r * C + c0 + c - (r * C + c0)) with c by lia. replace (c0 + c - c0) with c by lia.
+      rewrite firstn_app, skipn_length, HR. replace (c - (C - c0)) with 0 by lia. simpl. apply app_nil_r.
+  Qed.
+
+  Lemma set_nth_map_seq : forall {B} (g : nat -> B) n k v, k < n ->
+    set_nth (map g (seq 0 n)) k v = map (fun r => if r =? k then v else g r) (seq 0 n).
+  Proof.
+    intros B g n k v H. unfold set_nth.
+    rewrite firstn_map, skipn_map, firstn_seq', skipn_seq' by lia.
+    assert (E : seq 0 n = seq 0 k ++ k :: seq (S k) (n - S k)).
+    { replace n with (k + S (n - S k)) at 1 by lia. rewrite seq_app. reflexivity. }
+    rewrite E. rewrite map_app. cbn [map]. rewrite Nat.eqb_refl. f_equal; [|f_equal].
+    - apply map_ext_in. intros r Hr. apply in_seq in Hr.
+      replace (r =? k) with false by (symmetry; apply Nat.eqb_neq; lia). reflexivity.
+    - replace (0 + S k) with (S k) by lia. apply map_ext_in. intros r Hr. apply in_seq in Hr.
+      replace (r =? k) with false by (symmetry; apply Nat.eqb_neq; lia). reflexivity.
+  Qed.
+
+  Lemma nth_map_seq : forall {B} (g : nat -> B) n k d, k < n -> nth k (map g (seq 0 n)) d = g k.
+  Proof.
+    intros B g n k d H. rewrite (nth_indep _ d (g 0)) by (rewrite map_length, seq_length; assumption).
+    rewrite map_nth, seq_nth by assumption. reflexivity.
+  Qed.
+
+  (* the first k rows of M have their window [c0, c0+c) replaced by new r *)
+  Definition upd_rows (M : list (list (list A))) (c0 c : nat) (new : nat -> list (list A)) (k : nat) :=
+    map (fun r => if r <? k then firstn c0 (nth r M []) ++ new r ++ skipn (c0 + c) (nth r M []) else nth r M [])
+        (seq 0 (length M)).
+
+  Lemma upd_rows_0 : forall M c0 c new, upd_rows M c0 c new 0 = M.
+  Proof. intros. unfold upd_rows. simpl. symmetry. apply map_nth_seq. Qed.
+
+  Lemma upd_rows_rect : forall C M c0 c new k, rows_of C M -> c0 + c <= C ->
+    (forall r, r < length M -> length (new r) = c) -> rows_of C (upd_rows M c0 c new k).
+  Proof.
+    intros C M c0 c new k H Hc Hn. unfold rectl, upd_rows. apply Forall_forall. intros row Hrow.
+    apply in_map_iff in Hrow. destruct Hrow as [r [<- Hr]]. apply in_seq in Hr.
+    assert (HR : length (nth r M []) = C) by (apply rect_row_length; [assumption|lia]).
+    destruct (r <? k); [|assumption].
+    rewrite !app_length, firstn_length, skipn_length, Hn, HR by lia. lia.
+  Qed.
+
+  Lemma scatter_col_windows : forall C (M : list (list (list A))) c0 c (new : nat -> list (list A)) L,
+    rows_of C M -> c0 + c <= C -> map (@length A) (concat M) = L ->
+    (forall r, r < length M -> map (@length A) (new r) = map (@length A) (tslice (nth r M []) c0 (c0 + c))) ->
+    forall k, k <= length M ->
+    scatter (concat (concat M))
+            (flat_map (fun r => seq (pre L (r * C + c0)) (pre L (r * C + c0 + c) - pre L (r * C + c0))) (seq 0 k))
+            (concat (flat_map new (seq 0 k)))
+    = Some (concat (concat (upd_rows M c0 c new k)))
+    /\ map (@length A) (concat (upd_rows M c0 c new k)) = L.
+  Proof.
+    intros C M c0 c new L HM Hc HL Hnew.
+    assert (Hlen : forall r, r < length M -> length (new r) = c).
+    { intros r Hr. rewrite <- (map_length (@length A)), (Hnew r Hr), map_length, tslice_length; [lia|].
+      rewrite (rect_row_length C M r HM Hr). lia. }
+    induction k as [|k IH]; intros Hk.
+    - simpl. rewrite upd_rows_0. auto.
+    - destruct (IH ltac:(lia)) as [E1 E2]. clear IH.
+      set (Mk := upd_rows M c0 c new k) in *.
+      assert (HMk : rows_of C Mk) by (apply upd_rows_rect; assumption).
+      assert (HlMk : length Mk = length M) by (unfold Mk, upd_rows; rewrite map_length, seq_length; reflexivity).
+      assert (Hrow : nth k Mk [] = nth k M []).
+      { unfold Mk, upd_rows. rewrite nth_map_seq by lia. rewrite Nat.ltb_irrefl. reflexivity. }
+      destruct (rect_window C Mk k c0 c (new k) HMk ltac:(lia) Hc) as [W1 W2]. rewrite Hrow in W1, W2.
+      destruct (scatter_window (concat Mk) (new k) (k * C + c0) c) as [S1 S2].
+      { rewrite (rect_concat_length C Mk HMk), HlMk. nia. }
+      { rewrite W2. apply Hnew. lia. }
+      rewrite E2 in S1, S2.
+      assert (Hnext : set_nth Mk k (firstn c0 (nth k M []) ++ new k ++ skipn (c0 + c) (nth k M []))
+                      = upd_rows M c0 c new (S k)).
+      { unfold Mk, upd_rows. rewrite set_nth_map_seq by lia. apply map_ext_in. intros r Hr. apply in_seq in Hr.
+        destruct (Nat.eq_dec r k) as [->|Hne].
+        - rewrite Nat.eqb_refl. replace (k <? S k) with true by (symmetry; apply Nat.ltb_lt; lia). reflexivity.
+        - replace (r =? k) with false by (symmetry; apply Nat.eqb_neq; assumption).
+          destruct (r <? k) eqn:E.
+          + apply Nat.ltb_lt in E. replace (r <? S k) with true by (symmetry; apply Nat.ltb_lt; lia). reflexivity.
+          + apply Nat.ltb_ge in E. replace (r <? S k) with false by (symmetry; apply Nat.ltb_ge; lia). reflexivity. }
+      rewrite seq_S, !flat_map_app, concat_app. cbn [flat_map]. rewrite !app_nil_r. simpl Nat.add.
+      rewrite (scatter_app' _ _ _ _ _ _ E1). rewrite S1, W1, Hnext. split; [reflexivity|].
+      rewrite <- Hnext, <- W1. exact S2.
+  Qed.
+
+  (* -------------------------------------------------------------- *)
+  (* MultiNestedTensor.cat, dim = 1 *)
+  Definition mnt_of_pair (p : nat * cellmat) : mnt A := mnt_of_cells (fst p) (snd p).
+  (* a part: n rows of (fst p) cells *)
+  Definition part_ok (n : nat) (p : nat * cellmat) : Prop := rect (fst p) (snd p) /\ length (snd p) = n.
+  (* row r of the parts side by side *)
+  Definition hrow (ps : list (nat * cellmat)) (r : nat) : list (list A) := concat (map (fun p => nth r (snd p) []) ps).
+
+  Lemma hcat_hrow : forall n ps, hcat n (map snd ps) = map (hrow ps) (seq 0 n).
+  Proof. intros. unfold hcat, hrow. apply map_ext. intros r. rewrite map_map. reflexivity. Qed.
+
+  Lemma part_row_length : forall n p r, part_ok n p -> r < n -> length (nth r (snd p) []) = fst p.
+  Proof. intros n p r [H1 H2] Hr. apply (rect_row_length (fst p)); [exact H1|lia]. Qed.
+
+  Lemma hrow_length : forall n ps r, Forall (part_ok n) ps -> r < n -> length (hrow ps r) = sum (map fst ps).
+  Proof.
+    intros n ps r H Hr. unfold hrow. induction H as [|p ps Hp Hps IH]; simpl; auto.
+    rewrite app_length, IH, (part_row_length n p r Hp Hr). reflexivity.
+  Qed.
+
+  Lemma chunk_rows_concat : forall {B} c (m : list (list B)), rectl c m -> chunk_rows (length m) c (concat m) = m.
+  Proof.
+    intros B c m H. induction H as [|x m Hx Hm IH]; simpl; auto.
+    rewrite firstn_app, skipn_app, firstn_all2, skipn_all2 by lia.
+    replace (c - length x) with 0 by lia. simpl. rewrite app_nil_r, IH. reflexivity.
+  Qed.
+
+  Lemma chunk_rows_map : forall {B D} (f : B -> D) n c (l : list B),
+    chunk_rows n c (map f l) = map (map f) (chunk_rows n c l).
+  Proof.
+    intros B D f n c. induction n as [|n IH]; intros l; simpl; auto.
+    rewrite firstn_map, skipn_map, IH. reflexivity.
+  Qed.
+
+  Lemma mnt_cat1_lengths_canon : forall n (ps : list (nat * cellmat)), Forall (part_ok n) ps ->
+    forall (P J : nat -> list nat) c0,
+    (forall r, r < n -> length (P r) = c0) ->
+    (forall r, r < n -> length (J r) = sum (map fst ps)) ->
+    mnt_cat1_lengths A (map mnt_of_pair ps) (map (fun r => P r ++ J r) (seq 0 n)) c0 =
+    Some (map (fun r => P r ++ map (@length A) (hrow ps r)) (seq 0 n)).
+  Proof.
+    intros n ps H. induction H as [|[c m] ps Hp Hps IH]; intros P J c0 HP HJ.
+    - simpl. f_equal. apply map_ext_in. intros r Hr. apply in_seq in Hr.
+      specialize (HJ r ltac:(lia)). simpl in HJ. destruct (J r); [reflexivity|discriminate].
+    - cbn [map mnt_cat1_lengths]. change (mnt_of_pair (c, m)) with (mnt_of_cells c m).
+      destruct Hp as [Hrect Hlen]. cbn [fst snd] in Hrect, Hlen.
+      cbn [offs nr nc mnt_of_cells]. unfold diffs. rewrite diffs_of_offs.
+      unfold reshape. rewrite map_length, (rect_concat_length c m Hrect), Nat.eqb_refl. cbn [obind].
+      rewrite chunk_rows_map, chunk_rows_concat by exact Hrect.
+      unfold write_block. rewrite !map_length, seq_length, Hlen, Nat.eqb_refl.
+      rewrite (map_nth_seq m []) at 1. rewrite Hlen, map_map, combine_map_same, mapM_map.
+      rewrite (mapM_Some_map _ (fun r => (P r ++ map (@length A) (nth r m [])) ++ skipn c (J r))).
+      2: { intros r Hr. apply in_seq in Hr. cbn [fst snd].
+           assert (Hl : length (map (@length A) (nth r m [])) = c).
+           { rewrite map_length. apply (rect_row_length c m r Hrect). lia. }
+           rewrite <- (firstn_skipn c (J r)) at 1. rewrite <- (HP r) by lia.
+           rewrite write_at_seg.
+           - rewrite <- app_assoc. reflexivity.
+           - rewrite firstn_length, Hl. specialize (HJ r ltac:(lia)). simpl in HJ. lia. }
+      cbn [obind].
+      rewrite (IH (fun r => P r ++ map (@length A) (nth r m [])) (fun r => skipn c (J r)) (c0 + c)).
+      + f_equal. apply map_ext. intros r. unfold hrow. cbn [map concat snd].
+        rewrite map_app, <- app_assoc. reflexivity.
+      + intros r Hr. rewrite app_length, map_length, (HP r Hr), (rect_row_length c m r Hrect) by lia. reflexivity.
+      + intros r Hr. rewrite skipn_length, (HJ r Hr). simpl. lia.
+  Qed.
+
+  (* one iteration of the values loop: the part (c, m) lands in the cell window [c0, c0 + c) of every row *)
+  Lemma mnt_cat1_values_step : forall n C L (M : list (list (list A))) c0 c (m : cellmat) rest,
+    rows_of C M -> length M = n -> map (@length A) (concat M) = L ->
+    rect c m -> length m = n -> c0 + c <= C ->
+    (forall r, r < n -> map (@length A) (nth r m []) = map (@length A) (tslice (nth r M []) c0 (c0 + c))) ->
+    mnt_cat1_values A (mnt_of_cells c m :: rest) n C (0 :: cumsum L) (concat (concat M)) c0 =
+    mnt_cat1_values A rest n C (0 :: cumsum L)
+      (concat (concat (upd_rows M c0 c (fun r => nth r m []) n))) (c0 + c)
+    /\ map (@length A) (concat (upd_rows M c0 c (fun r => nth r m []) n)) = L.
+  Proof.
+    intros n C L M c0 c m rest HM HlM HL Hrect Hlm Hc Hwin.
+    assert (HlL : length L = n * C).
+    { rewrite <- HL, map_length, (rect_concat_length C M HM), HlM. reflexivity. }
+    destruct (scatter_col_windows C M c0 c (fun r => nth r m []) L HM Hc HL) with (k := n) as [S1 S2].
+    { intros r Hr. apply Hwin. lia. }
+    { lia. }
+    split; [|exact S2].
+    cbn [mnt_cat1_values]. cbn [nc vals mnt_of_cells].
+    rewrite !map_map.
+    rewrite !tgather_offs.
+    2: { apply Forall_forall. intros i Hi. apply in_map_iff in Hi. destruct Hi as [r [<- Hr]]. apply in_seq in Hr.
+         rewrite HlL. nia. }
+    2: { apply Forall_forall. intros i Hi. apply in_map_iff in Hi. destruct Hi as [r [<- Hr]]. apply in_seq in Hr.
+         rewrite HlL. nia. }
+    cbn [obind]. rewrite !map_map, sub2_map_same, batch_index_map. cbn [obind].
+    replace (concat (concat m)) with (concat (flat_map (fun r => nth r m []) (seq 0 n))).
+    2: { rewrite flat_map_concat_map, <- Hlm, <- map_nth_seq. reflexivity. }
+    rewrite (flat_map_ext _ (fun r => seq (pre L (r * C + c0)) (pre L (r * C + c0 + c) - pre L (r * C + c0)))).
+    2: { intros r. replace (c0 + r * C) with (r * C + c0) by lia. reflexivity. }
+    rewrite S1. reflexivity.
+  Qed.
+
+  Lemma map_length_skipn : forall (l : list (list A)) k, map (@length A) (skipn k l) = skipn k (map (@length A) l).
+  Proof. intros. symmetry. apply skipn_map. Qed.
+
+  Lemma mnt_cat1_values_canon : forall n C L (ps : list (nat * cellmat)), Forall (part_ok n) ps ->
+    forall (D J : nat -> list (list A)) c0,
+    (forall r, r < n -> length (D r) = c0) ->
+    (forall r, r < n -> map (@length A) (J r) = map (@length A) (hrow ps r)) ->
+    c0 + sum (map fst ps) = C ->
+    map (@length A) (concat (map (fun r => D r ++ J r) (seq 0 n))) = L ->
+    mnt_cat1_values A (map mnt_of_pair ps) n C (0 :: cumsum L)
+                    (concat (concat (map (fun r => D r ++ J r) (seq 0 n)))) c0 =
+    Some (concat (concat (map (fun r => D r ++ hrow ps r) (seq 0 n)))).
+  Proof.
+    intros n C L ps H. induction H as [|[c m] ps Hp Hps IH]; intros D J c0 HD HJ HC HL.
+    - simpl. do 3 f_equal. apply map_ext_in. intros r Hr. apply in_seq in Hr.
+      specialize (HJ r ltac:(lia)). unfold hrow in *. simpl in *. destruct (J r); [reflexivity|discriminate].
+    - destruct Hp as [Hrect Hlen]. cbn [fst snd] in Hrect, Hlen. cbn [map fst] in HC. simpl sum in HC.
+      cbn [map]. change (mnt_of_pair (c, m)) with (mnt_of_cells c m).
+      set (M := map (fun r => D r ++ J r) (seq 0 n)) in *.
+      assert (HlM : length M = n) by (unfold M; rewrite map_length, seq_length; reflexivity).
+      assert (HJl : forall r, r < n -> length (J r) = c + sum (map fst ps)).
+      { intros r Hr. rewrite <- (map_length (@length A)), (HJ r Hr), map_length.
+        rewrite (hrow_length n ((c, m) :: ps) r); [reflexivity| |assumption].
+        constructor; [split; assumption|assumption]. }
+      assert (HM : rows_of C M).
+      { unfold rectl, M. apply Forall_forall. intros row Hrow. apply in_map_iff in Hrow.
+        destruct Hrow as [r [<- Hr]]. apply in_seq in Hr. rewrite app_length, HD, HJl by lia. lia. }
+      assert (Hrow : forall r, r < n -> nth r M [] = D r ++ J r).
+      { intros r Hr. unfold M. rewrite (nth_map_seq (fun r0 => D r0 ++ J r0) n r []) by assumption. reflexivity. }
+      assert (Hmr : forall r, r < n -> length (nth r m []) = c).
+      { intros r Hr. apply (rect_row_length c m r Hrect). lia. }
+      assert (HJsplit : forall r, r < n -> map (@length A) (J r) =
+                                         map (@length A) (nth r m []) ++ map (@length A) (hrow ps r)).
+      { intros r Hr. rewrite (HJ r Hr). unfold hrow. cbn [map concat snd]. apply map_app. }
+      destruct (mnt_cat1_values_step n C L M c0 c m (map mnt_of_pair ps) HM HlM HL Hrect Hlen ltac:(lia)) as [E1 E2].
+      { intros r Hr. rewrite (Hrow r Hr). unfold tslice. replace (c0 + c - c0) with c by lia.
+        rewrite skipn_app, skipn_all2, (HD r Hr), Nat.sub_diag by (rewrite HD; lia). simpl.
+        rewrite <- firstn_map, (HJsplit r Hr), firstn_app, firstn_all2 by (rewrite map_length, Hmr; lia).
+        rewrite map_length, (Hmr r Hr), Nat.sub_diag. simpl. rewrite app_nil_r. reflexivity. }
+      rewrite E1.
+      assert (Hupd : upd_rows M c0 c (fun r => nth r m []) n =
+                     map (fun r => (D r ++ nth r m []) ++ skipn c (J r)) (seq 0 n)).
+      { unfold upd_rows. rewrite HlM. apply map_ext_in. intros r Hr. apply in_seq in Hr.
+        replace (r <? n) with true by (symmetry; apply Nat.ltb_lt; lia).
+        rewrite (Hrow r) by lia.
+        rewrite firstn_app, firstn_all2, (HD r), Nat.sub_diag by (try rewrite HD; lia). simpl. rewrite app_nil_r.
+        rewrite skipn_app, skipn_all2, (HD r) by (try rewrite HD; lia).
+        replace (c0 + c - c0) with c by lia. simpl. rewrite <- app_assoc. reflexivity. }
+      rewrite Hupd in *.
+      rewrite (IH (fun r => D r ++ nth r m []) (fun r => skipn c (J r)) (c0 + c)).
+      + do 3 f_equal. apply map_ext. intros r. unfold hrow. cbn [map concat snd]. rewrite <- app_assoc. reflexivity.
+      + intros r Hr. rewrite app_length, (HD r Hr), (Hmr r Hr). reflexivity.
+      + intros r Hr. rewrite map_length_skipn, (HJsplit r Hr), skipn_app, skipn_all2 by (rewrite map_length, Hmr; lia).
+        rewrite map_length, (Hmr r Hr), Nat.sub_diag. reflexivity.
+      + lia.
+      + exact E2.
+  Qed.
+
+  Lemma cut_blocks2 : forall (lens : list (list nat)) (buf : list A), length buf = sum (map sum lens) ->
+    exists M : list (list (list A)), concat (concat M) = buf /\ map (map (@length A)) M = lens.
+  Proof.
+    induction lens as [|a lens IH]; intros buf H; simpl in H.
+    - exists []. destruct buf; [auto|discriminate].
+    - destruct (cut_blocks a (firstn (sum a) buf)) as [F [HF1 HF2]]; [rewrite firstn_length; lia|].
+      destruct (IH (skipn (sum a) buf)) as [M [HM1 HM2]]; [rewrite skipn_length; lia|].
+      exists (F :: M). simpl. rewrite concat_app, HF1, HM1, firstn_skipn, HF2, HM2. auto.
+  Qed.
+
+  Lemma length_cc_app : forall (l : list nat) (f g : nat -> list (list A)),
+    length (concat (concat (map (fun r => f r ++ g r) l))) =
+    length (concat (concat (map f l))) + length (concat (concat (map g l))).
+  Proof.
+    induction l as [|x l IH]; intros f g; simpl; auto.
+    rewrite !concat_app, !app_length, IH. lia.
+  Qed.
+
+  Lemma total_length : forall n ps, Forall (part_ok n) ps ->
+    sum (map (fun x => length (vals x)) (map mnt_of_pair ps)) = length (concat (concat (map (hrow ps) (seq 0 n)))).
+  Proof.
+    intros n ps H. induction H as [|[c m] ps Hp Hps IH].
+    - simpl. induction (seq 0 n); simpl; auto.
+    - cbn [map sum fold_right]. change (vals (mnt_of_pair (c, m))) with (concat (concat m)).
+      fold (sum (map (fun x : mnt A => length (vals x)) (map mnt_of_pair ps))). rewrite IH.
+      destruct Hp as [_ Hl]. cbn [snd] in Hl.
+      rewrite (map_ext (hrow ((c, m) :: ps)) (fun r => nth r m [] ++ hrow ps r)) by reflexivity.
+      rewrite length_cc_app. rewrite <- Hl, <- map_nth_seq. reflexivity.
+  Qed.
+
+  Lemma hcat_rect : forall n ps, Forall (part_ok n) ps -> rect (sum (map fst ps)) (hcat n (map snd ps)).
+  Proof.
+    intros n ps H. rewrite hcat_hrow. unfold rect. apply Forall_forall. intros row Hrow.
+    apply in_map_iff in Hrow. destruct Hrow as [r [<- Hr]]. apply in_seq in Hr.
+    apply (hrow_length n); [assumption|lia].
+  Qed.
+
+  Lemma mnt_cat1_canon : forall n (ps : list (nat * cellmat)), ps <> [] -> Forall (part_ok n) ps ->
+    mnt_cat1 A junk_o junk_v (map mnt_of_pair ps) =
+    Some (mnt_of_cells (sum (map fst ps)) (hcat n (map snd ps))).
+  Proof.
+    intros n ps Hne Hok.
+    set (C := sum (map fst ps)). set (H := map (hrow ps) (seq 0 n)).
+    assert (HH : hcat n (map snd ps) = H) by apply hcat_hrow.
+    assert (HrH : rect C H) by (rewrite <- HH; apply hcat_rect; assumption).
+    assert (HlH : length H = n) by (unfold H; rewrite map_length, seq_length; reflexivity).
+    set (L := map (@length A) (concat H)).
+    (* the two loops *)
+    assert (E1 : mnt_cat1_lengths A (map mnt_of_pair ps)
+                   (map (fun r => map (fun c => junk_o (r * C + c)) (seq 0 C)) (seq 0 n)) 0
+                 = Some (map (fun r => map (@length A) (hrow ps r)) (seq 0 n))).
+    { apply (mnt_cat1_lengths_canon n ps Hok (fun _ => []) (fun r => map (fun c => junk_o (r * C + c)) (seq 0 C)) 0).
+      - reflexivity.
+      - intros. rewrite map_length, seq_length. reflexivity. }
+    assert (EL : concat (map (fun r => map (@length A) (hrow ps r)) (seq 0 n)) = L).
+    { unfold L, H. rewrite concat_map, map_map. reflexivity. }
+    set (total := sum (map (fun x => length (vals x)) (map mnt_of_pair ps))).
+    assert (Htot : total = length (concat (concat H))) by (apply total_length; assumption).
+    destruct (cut_blocks2 (map (map (@length A)) H) (empty_buf junk_v total)) as [J0 [HJ1 HJ2]].
+    { unfold empty_buf. rewrite map_length, seq_length, Htot.
+      rewrite (sum_map_length_concat (concat H)), concat_map, sum_concat. reflexivity. }
+    assert (HlJ : length J0 = n).
+    { rewrite <- (map_length (map (@length A))), HJ2, map_length. exact HlH. }
+    assert (HJ0 : map (fun r => nth r J0 []) (seq 0 n) = J0) by (rewrite <- HlJ; symmetry; apply map_nth_seq).
+    assert (E2 : mnt_cat1_values A (map mnt_of_pair ps) n C (0 :: cumsum L) (empty_buf junk_v total) 0
+                 = Some (concat (concat H))).
+    { rewrite <- HJ1. rewrite <- HJ0 at 1.
+      apply (mnt_cat1_values_canon n C L ps Hok (fun _ => []) (fun r => nth r J0 []) 0).
+      - reflexivity.
+      - intros r Hr.
+        change (@nil (list A)) with (@nil (list A)) at 1.
+        assert (E := f_equal (fun l => nth r l []) HJ2). cbn beta in E.
+        change (@nil nat) with (map (@length A) []) in E. rewrite !map_nth in E.
+        rewrite E. unfold H. rewrite nth_map_seq by assumption. reflexivity.
+      - reflexivity.
+      - cbn [app]. rewrite HJ0. unfold L. rewrite !concat_map, HJ2. reflexivity. }
+    (* assembling *)
+    destruct ps as [|p0 ps']; [congruence|]. remember (p0 :: ps') as ps0 eqn:Eps.
+    unfold mnt_cat1. rewrite Eps at 1. cbn [map].
+    replace (mnt_of_pair p0 :: map mnt_of_pair ps') with (map mnt_of_pair ps0) by (rewrite Eps; reflexivity).
+    assert (Hn0 : nr (mnt_of_pair p0) = n).
+    { rewrite Eps in Hok. inversion Hok as [|? ? [_ Hl] _]. exact Hl. }
+    rewrite Hn0.
+    rewrite forallb_map_Forall.
+    2: { rewrite Eps in Hok. inversion Hok as [|? ? _ Hrest]. eapply Forall_impl; [|exact Hrest].
+         intros p [_ Hl]. apply Nat.eqb_eq. exact Hl. }
+    replace (sum (map (@nc A) (map mnt_of_pair ps0))) with C by (unfold C; rewrite map_map; reflexivity).
+    rewrite E1. cbn [obind]. rewrite EL. fold total. rewrite E2. cbn [obind].
+    rewrite HH. rewrite <- HlH. apply mk_mnt_canon. exact HrH.
+  Qed.
+
+  (* -------------------------------------------------------------- *)
+  (* MultiNestedTensor.fillna_col *)
+  Lemma map_as_seq : forall {B D} (g : B -> D) (l : list B) d,
+    map g l = map (fun r => g (nth r l d)) (seq 0 (length l)).
+  Proof. intros. rewrite <- (map_map (fun r => nth r l d) g), <- map_nth_seq. reflexivity. Qed.
+
+  Lemma upd_rows_fill : forall is_na fill c (m : cellmat) j, rect c m -> j < c ->
+    upd_rows m j 1 (fun r => [map (fill_na A is_na fill) (nth j (nth r m []) [])]) (length m)
+    = fill_cells is_na fill j m.
+  Proof.
+    intros is_na fill c m j H Hj. unfold upd_rows, fill_cells.
+    rewrite (map_as_seq _ m []). apply map_ext_in. intros r Hr. apply in_seq in Hr.
+    replace (r <? length m) with true by (symmetry; apply Nat.ltb_lt; lia).
+    unfold upd_nth. assert (Hl : length (nth r m []) = c) by (apply (rect_row_length c m r H); lia).
+    rewrite (skipn_nth_cons (nth r m []) j []) by lia. replace (j + 1) with (S j) by lia. reflexivity.
+  Qed.
+
+  Lemma mnt_fillna_col_canon : forall is_na fill c (m : cellmat) j, rect c m -> j < c ->
+    mnt_fillna_col A is_na (mnt_of_cells c m) j fill = Some (mnt_of_cells c (fill_cells is_na fill j m)).
+  Proof.
+    intros is_na fill c m j H Hj.
+    set (n := length m). set (L := map (@length A) (concat m)).
+    set (new := fun r => [map (fill_na A is_na fill) (nth j (nth r m []) [])]).
+    assert (HlL : length L = n * c) by (unfold L; rewrite map_length; apply rect_concat_length; assumption).
+    destruct (scatter_col_windows c m j 1 new L H ltac:(lia) eq_refl) with (k := n) as [S1 S2].
+    { intros r Hr. unfold new. assert (Hl : length (nth r m []) = c) by (apply (rect_row_length c m r H); assumption).
+      replace (j + 1) with (S j) by lia.
+      rewrite (tslice_one (nth r m []) j []) by lia. simpl. rewrite map_length. reflexivity. }
+    { unfold n. lia. }
+    assert (Hupd := upd_rows_fill is_na fill c m j H Hj). fold new n in Hupd. rewrite Hupd in S1, S2.
+    unfold mnt_fillna_col. cbn [nr nc offs vals mnt_of_cells]. fold n L.
+    rewrite !map_map. rewrite !tgather_offs.
+    2: { apply Forall_forall. intros i Hi. apply in_map_iff in Hi. destruct Hi as [r [<- Hr]]. apply in_seq in Hr.
+         rewrite HlL. nia. }
+    2: { apply Forall_forall. intros i Hi. apply in_map_iff in Hi. destruct Hi as [r [<- Hr]]. apply in_seq in Hr.
+         rewrite HlL. nia. }
+    cbn [obind]. rewrite !map_map, sub2_map_same.
+    destruct (gather_windows (concat m) (seq 0 n) (fun r => r * c + j) (fun r => S (r * c + j))) as [vidx [G1 G2]].
+    { apply Forall_forall. intros r Hr. apply in_seq in Hr. split; [lia|].
+      rewrite (rect_concat_length c m H). fold n. nia. }
+    fold L in G1. rewrite G1. cbn [obind]. rewrite G2. cbn [obind].
+    rewrite batch_index_map in G1. injection G1 as <-.
+    replace (map (fill_na A is_na fill)
+                 (concat (map (fun x => concat (tslice (concat m) (x * c + j) (S (x * c + j)))) (seq 0 n))))
+      with (concat (flat_map new (seq 0 n))).
+    2: { unfold new. rewrite flat_map_singleton, concat_map, map_map. f_equal. apply map_ext_in.
+         intros r Hr. apply in_seq in Hr.
+         rewrite (tslice_one (concat m) (r * c + j) []) by (rewrite (rect_concat_length c m H); fold n; nia).
+         cbn [concat]. rewrite app_nil_r. f_equal. apply rect_cell; [assumption|fold n; lia|assumption]. }
+    rewrite (flat_map_ext _ (fun r => seq (pre L (r * c + j)) (pre L (r * c + j + 1) - pre L (r * c + j)))).
+    2: { intros r. replace (r * c + j + 1) with (S (r * c + j)) by lia. reflexivity. }
+    rewrite S1. cbn [obind]. unfold mnt_of_cells, fill_cells. rewrite map_length. fold (fill_cells is_na fill j m).
+    rewrite S2. reflexivity.
+  Qed.
+
+  (* -------------------------------------------------------------- *)
+  (* MultiNestedTensor.to_dense *)
+  Lemma batch_lt : forall L, Forall (fun b => b < length L) (fst (batched_arange L)).
+  Proof.
+    intros L. rewrite batched_arange_spec. cbn [fst]. apply Forall_concat. apply Forall_forall.
+    intros l Hl. apply in_map_iff in Hl. destruct Hl as [[b k] [<- Hin]]. cbn [fst snd].
+    apply in_combine_l in Hin. apply in_seq in Hin. apply Forall_forall. intros x Hx.
+    apply repeat_spec in Hx. subst. lia.
+  Qed.
+
+  Lemma arange_lt : forall L, Forall (fun k => k < list_max L) (snd (batched_arange L)).
+  Proof.
+    intros L. rewrite batched_arange_spec. cbn [snd]. apply Forall_concat. apply Forall_forall.
+    intros l Hl. apply in_map_iff in Hl. destruct Hl as [len [<- Hin]].
+    apply Forall_forall. intros k Hk. apply in_seq in Hk.
+    assert (Hle : Forall (fun x => x <= list_max L) L) by (apply list_max_le; lia).
+    rewrite Forall_forall in Hle. specialize (Hle len Hin). lia.
+  Qed.
+
+  Lemma combine3_map : forall {B1 B2 D} (f1 : nat -> B1) (f2 : nat -> B2) (h : B1 * B2 * nat -> D) (Bt Ar : list nat),
+    map h (combine (combine (map f1 Bt) (map f2 Bt)) Ar) =
+    map (fun p => h (f1 (fst p), f2 (fst p), snd p)) (combine Bt Ar).
+  Proof.
+    intros B1 B2 D f1 f2 h Bt. induction Bt as [|b Bt IH]; intros Ar; [reflexivity|].
+    destruct Ar as [|k Ar]; [reflexivity|]. simpl. f_equal. apply IH.
+  Qed.
+
+  Definition pad (fill : A) (Lmax : nat) (cl : list A) : list A := cl ++ repeat fill (Lmax - length cl).
+
+  Lemma firstn_S_nth : forall {B} (l : list B) k d, k < length l -> firstn (S k) l = firstn k l ++ [nth k l d].
+  Proof.
+    intros B l; induction l as [|x l IH]; intros k d H; simpl in H; [lia|].
+    destruct k; [reflexivity|]. simpl. f_equal. apply IH. lia.
+  Qed.
+
+  Lemma pad_rect : forall fill Lmax (cells : list (list A)), Forall (fun cl => length cl <= Lmax) cells ->
+    rectl Lmax (map (pad fill Lmax) cells).
+  Proof.
+    intros fill Lmax cells H. unfold rectl. apply Forall_forall. intros x Hx. apply in_map_iff in Hx.
+    destruct Hx as [cl [<- Hcl]]. rewrite Forall_forall in H. specialize (H cl Hcl).
+    unfold pad. rewrite app_length, repeat_length. lia.
+  Qed.
+
+  Lemma scatter_pad : forall fill Lmax (cells : list (list A)), Forall (fun cl => length cl <= Lmax) cells ->
+    forall k, k <= length cells ->
+    scatter (repeat fill (length cells * Lmax))
+            (flat_map (fun b => seq (b * Lmax) (length (nth b cells []))) (seq 0 k))
+            (concat (firstn k cells))
+    = Some (concat (map (pad fill Lmax) (firstn k cells)) ++ repeat fill ((length cells - k) * Lmax)).
+  Proof.
+    intros fill Lmax cells H. induction k as [|k IH]; intros Hk.
+    - simpl. rewrite Nat.sub_0_r. reflexivity.
+    - rewrite seq_S, flat_map_app, (firstn_S_nth cells k []) by lia. cbn [flat_map]. rewrite app_nil_r.
+      rewrite concat_app. cbn [concat]. rewrite app_nil_r. simpl Nat.add.
+      rewrite (scatter_app' _ _ _ _ _ _ (IH ltac:(lia))).
+      set (cl := nth k cells []).
+      assert (Hcl : length cl <= Lmax).
+      { rewrite Forall_forall in H. apply H. apply nth_In. lia. }
+      assert (HX : length (concat (map (pad fill Lmax) (firstn k cells))) = k * Lmax).
+      { rewrite (rect_concat_length Lmax).
+        - rewrite map_length, firstn_length. f_equal. lia.
+        - apply pad_rect. rewrite Forall_forall in *. intros x Hx. apply H. eapply In_firstn. exact Hx. }
+      replace ((length cells - k) * Lmax) with (length cl + ((Lmax - length cl) + (length cells - S k) * Lmax)) by nia.
+      rewrite !repeat_app. rewrite <- HX.
+      rewrite scatter_seq by (rewrite repeat_length; reflexivity).
+      rewrite map_app, concat_app. cbn [map concat]. unfold pad at 3. fold cl. rewrite app_nil_r.
+      rewrite <- !app_assoc. reflexivity.
+  Qed.
+
+  Lemma add2_map_l : forall (f : nat -> nat) (Bt Ar : list nat),
+    add2 (map f Bt) Ar = map (fun p => f (fst p) + snd p) (combine Bt Ar).
+  Proof.
+    intros f Bt. unfold add2. induction Bt as [|b Bt IH]; intros Ar; [reflexivity|].
+    destruct Ar as [|k Ar]; [reflexivity|]. simpl. f_equal. apply IH.
+  Qed.
+
+  Lemma Some_inj : forall {B} (a b : B), Some a = Some b -> a = b.
+  Proof. intros B a b H. injection H as H. exact H. Qed.
+
+  Lemma max_error_ne : forall l, l <> [] -> max_error l = Some (list_max l).
+  Proof. intros l H. destruct l; [congruence|reflexivity]. Qed.
+
+  Lemma mnt_to_dense_canon : forall fill c (m : cellmat), rect c m -> m <> [] -> c <> 0 ->
+    mnt_to_dense A (mnt_of_cells c m) fill = Some (pad_cells fill m).
+  Proof.
+    intros fill c m H Hm Hc.
+    set (n := length m). set (cells := concat m). set (L := map (@length A) cells).
+    set (Lmax := list_max L).
+    assert (HN : length cells = n * c) by (apply rect_concat_length; assumption).
+    assert (HlL : length L = n * c) by (unfold L; rewrite map_length; exact HN).
+    assert (Hle : Forall (fun cl => length cl <= Lmax) cells).
+    { assert (E : Forall (fun x => x <= Lmax) L) by (apply list_max_le; unfold Lmax; lia).
+      unfold L in E. rewrite Forall_map in E. exact E. }
+    unfold mnt_to_dense. cbn [offs nr nc vals mnt_of_cells]. fold n cells L.
+    unfold diffs. rewrite diffs_of_offs.
+    assert (HLne : L <> []).
+    { intro E. apply (f_equal (@length nat)) in E. rewrite HlL in E. simpl in E.
+      destruct m; [congruence|]. unfold n in E. simpl in E. nia. }
+    rewrite (max_error_ne L HLne). fold Lmax. cbn [obind].
+    replace (c =? 0) with false by (symmetry; apply Nat.eqb_neq; assumption).
+    (* bounds checks *)
+    assert (Hb := batch_lt L). assert (Ha := arange_lt L). fold Lmax in Ha. rewrite HlL in Hb.
+    set (ba := batched_arange L) in *.
+    rewrite !forallb_map_Forall.
+    2: { eapply Forall_impl; [|exact Hb]. intros b Hbn. apply Nat.ltb_lt. apply Nat.mod_upper_bound. assumption. }
+    2: { eapply Forall_impl; [|exact Hb]. intros b Hbn. apply Nat.ltb_lt.
+         cbn beta in Hbn. apply Nat.div_lt_upper_bound; [assumption|]. nia. }
+    rewrite (forallb_Forall _ (fun k => k < Lmax)) by (auto; intros x Hx; apply Nat.ltb_lt; exact Hx).
+    cbn [andb].
+    (* the flat positions *)
+    rewrite combine3_map. cbn [fst snd].
+    rewrite (map_ext _ (fun p => fst p * Lmax + snd p)).
+    2: { intros [b k]. cbn [fst snd]. f_equal. f_equal. rewrite (Nat.div_mod b c Hc) at 3. lia. }
+    assert (Eidx : map (fun p => fst p * Lmax + snd p) (combine (fst ba) (snd ba))
+                   = flat_map (fun b => seq (b * Lmax) (length (nth b cells []))) (seq 0 (n * c))).
+    { unfold ba in *. assert (E := batch_index_spec (map (fun b => b * Lmax) (seq 0 (n * c))) L
+                     ltac:(rewrite map_length, seq_length; lia)).
+      unfold batch_index in E. rewrite (tgather_map_seq (fun b => b * Lmax)) in E by exact Hb.
+      apply Some_inj in E. rewrite add2_map_l in E. rewrite E.
+      unfold L at 1. rewrite (map_as_seq (@length A) cells []), HN, combine_map_same, flat_map_map. reflexivity. }
+    rewrite Eidx.
+    replace (concat cells) with (concat (firstn (length cells) cells)) by (rewrite firstn_all; reflexivity).
+    replace (n * c * Lmax) with (length cells * Lmax) by (rewrite HN; reflexivity).
+    replace (seq 0 (n * c)) with (seq 0 (length cells)) by (rewrite HN; reflexivity).
+    rewrite (scatter_pad fill Lmax cells Hle (length cells)) by lia.
+    cbn [obind]. rewrite Nat.sub_diag, firstn_all. simpl repeat. rewrite app_nil_r.
+    f_equal.
+    assert (Hp := pad_rect fill Lmax cells Hle).
+    replace (n * c) with (length (map (pad fill Lmax) cells)) by (rewrite map_length; exact HN).
+    rewrite (chunk_rows_concat Lmax _ Hp).
+    unfold cells. rewrite concat_map.
+    assert (Hr2 : rectl c (map (map (pad fill Lmax)) m)).
+    { unfold rectl. apply Forall_forall. intros x Hx. apply in_map_iff in Hx. destruct Hx as [row [<- Hrow]].
+      rewrite map_length. unfold rect in H. rewrite Forall_forall in H. auto. }
+    replace n with (length (map (map (pad fill Lmax)) m)) by (rewrite map_length; reflexivity).
+    rewrite (chunk_rows_concat c _ Hr2). reflexivity.
+  Qed.
+
+  (* -------------------------------------------------------------- *)
+  (* the dim argument *)
+  Lemma mnt_cat_dim0 : forall xs, mnt_cat A junk_o junk_v xs 0%Z = mnt_cat0 A junk_o xs.
+  Proof. intros [|x xs]; reflexivity. Qed.
+  Lemma mnt_cat_dim1 : forall xs, mnt_cat A junk_o junk_v xs 1%Z = mnt_cat1 A junk_o junk_v xs.
+  Proof. intros [|x xs]; reflexivity. Qed.
+  Lemma mnt_cat_neg : forall xs, mnt_cat A junk_o junk_v xs (-3)%Z = mnt_cat A junk_o junk_v xs 0%Z
+                              /\ mnt_cat A junk_o junk_v xs (-2)%Z = mnt_cat A junk_o junk_v xs 1%Z.
+  Proof. intros [|x xs]; split; reflexivity. Qed.
+  Lemma met_cat_dim0 : forall xs, met_cat A xs 0%Z = met_cat0 A xs.
+  Proof. intros [|x xs]; reflexivity. Qed.
+  Lemma met_cat_dim1 : forall xs, met_cat A xs 1%Z = met_cat1 A xs.
+  Proof. intros [|x xs]; reflexivity. Qed.
+  Lemma met_cat_neg : forall xs, met_cat A xs (-3)%Z = met_cat A xs 0%Z /\ met_cat A xs (-2)%Z = met_cat A xs 1%Z.
+  Proof. intros [|x xs]; split; reflexivity. Qed.
+
+  (* -------------------------------------------------------------- *)
+  (* nested-list facts about picking rows / columns *)
+  Lemma pick_rows_concat : forall (poss : list (list nat)) (m : cellmat),
+    pick_rows (concat poss) m = concat (map (fun pos => pick_rows pos m) poss).
+  Proof. intros. unfold pick_rows. apply concat_map. Qed.
+
+  Lemma pick_rows_all : forall (m : cellmat), pick_rows (seq 0 (length m)) m = m.
+  Proof. intros. unfold pick_rows. symmetry. apply map_nth_seq. Qed.
+
+  Lemma pick_cols_length : forall pos (m : cellmat), length (pick_cols pos m) = length m.
+  Proof. intros. unfold pick_cols. apply map_length. Qed.
+
+  Lemma pick_cols_row : forall pos (m : cellmat) r, r < length m ->
+    nth r (pick_cols pos m) [] = map (fun j => nth j (nth r m []) []) pos.
+  Proof.
+    intros pos m r H. unfold pick_cols.
+    rewrite (nth_indep _ [] ((fun row : list (list A) => map (fun j => nth j row []) pos) []))
+      by (rewrite map_length; assumption).
+    rewrite (map_nth (fun row : list (list A) => map (fun j => nth j row []) pos)). reflexivity.
+  Qed.
+
+  Lemma pick_cols_concat : forall (poss : list (list nat)) (m : cellmat),
+    hcat (length m) (map (fun pos => pick_cols pos m) poss) = pick_cols (concat poss) m.
+  Proof.
+    intros poss m. unfold hcat. unfold pick_cols at 2.
+    rewrite (map_as_seq (fun r0 : list (list A) => map (fun j => nth j r0 []) (concat poss)) m []).
+    apply map_ext_in. intros r Hr. apply in_seq in Hr.
+    rewrite map_map, concat_map. f_equal. apply map_ext. intros pos.
+    rewrite pick_cols_row by lia. reflexivity.
+  Qed.
+
+  Lemma pick_cols_all : forall c (m : cellmat), rect c m -> pick_cols (seq 0 c) m = m.
+  Proof.
+    intros c m H. unfold pick_cols. rewrite <- (map_id m) at 2. apply map_ext_in. intros row Hrow.
+    unfold rect in H. rewrite Forall_forall in H. rewrite <- (H row Hrow). symmetry. apply map_nth_seq.
+  Qed.
+
+  (* -------------------------------------------------------------- *)
+  (* cat of selections = selection of the concatenated positions; split / cat round trip *)
+  Definition valid_parts (n : nat) (ixs : list index) (poss : list (list nat)) : Prop :=
+    Forall2 (fun ix pos => py_positions n ix = Some pos) ixs poss.
+
+  Lemma mnt_select_rows_parts : forall c (m : cellmat) ixs poss, rect c m -> valid_parts (length m) ixs poss ->
+    mapM (fun ix => select A _ (mnt_kernels A) (mnt_of_cells c m) ix 0) ixs
+    = Some (map (mnt_of_cells c) (map (fun pos => pick_rows pos m) poss))
+    /\ Forall (rect c) (map (fun pos => pick_rows pos m) poss).
+  Proof.
+    intros c m ixs poss H HV. induction HV as [|ix pos ixs poss Hix HV IH].
+    - split; [reflexivity|constructor].
+    - destruct IH as [IH1 IH2]. cbn [mapM map]. rewrite IH1.
+      rewrite (mnt_select_refines_proof A c m ix 0 H ltac:(lia)). cbn [Nat.eqb]. rewrite Hix.
+      split; [reflexivity|]. constructor; [|exact IH2].
+      exact (pick_rect_proof A c m ix 0 pos H ltac:(lia) Hix).
+  Qed.
+
+  Lemma mnt_cat_row_selections : forall c (m : cellmat) ixs poss, rect c m -> ixs <> [] ->
+    valid_parts (length m) ixs poss ->
+    (parts <- mapM (fun ix => select A _ (mnt_kernels A) (mnt_of_cells c m) ix 0) ixs ;;
+     mnt_cat A junk_o junk_v parts 0%Z)
+    = Some (mnt_of_cells c (pick_rows (concat poss) m)).
+  Proof.
+    intros c m ixs poss H Hne HV. destruct (mnt_select_rows_parts c m ixs poss H HV) as [E1 E2].
+    rewrite E1. cbn [obind]. rewrite mnt_cat_dim0, mnt_cat0_canon, <- pick_rows_concat; auto.
+    destruct HV; [congruence|discriminate].
+  Qed.
+
+  Lemma mnt_select_cols_parts : forall c (m : cellmat) ixs poss, rect c m -> valid_parts c ixs poss ->
+    mapM (fun ix => select A _ (mnt_kernels A) (mnt_of_cells c m) ix 1) ixs
+    = Some (map mnt_of_pair (map (fun pos => (length pos, pick_cols pos m)) poss))
+    /\ Forall (part_ok (length m)) (map (fun pos => (length pos, pick_cols pos m)) poss).
+  Proof.
+    intros c m ixs poss H HV. induction HV as [|ix pos ixs poss Hix HV IH].
+    - split; [reflexivity|constructor].
+    - destruct IH as [IH1 IH2]. cbn [mapM map]. rewrite IH1.
+      rewrite (mnt_select_refines_proof A c m ix 1 H ltac:(lia)). cbn [Nat.eqb]. rewrite Hix.
+      split; [reflexivity|]. constructor; [|exact IH2]. split; cbn [fst snd].
+      + exact (pick_rect_proof A c m ix 1 pos H ltac:(lia) Hix).
+      + apply pick_cols_length.
+  Qed.
+
+  Lemma mnt_cat_col_selections : forall c (m : cellmat) ixs poss, rect c m -> ixs <> [] ->
+    valid_parts c ixs poss ->
+    (parts <- mapM (fun ix => select A _ (mnt_kernels A) (mnt_of_cells c m) ix 1) ixs ;;
+     mnt_cat A junk_o junk_v parts 1%Z)
+    = Some (mnt_of_cells (length (concat poss)) (pick_cols (concat poss) m)).
+  Proof.
+    intros c m ixs poss H Hne HV. destruct (mnt_select_cols_parts c m ixs poss H HV) as [E1 E2].
+    rewrite E1. cbn [obind]. rewrite mnt_cat_dim1, (mnt_cat1_canon (length m)); auto.
+    - rewrite !map_map. cbn [fst snd]. rewrite <- length_concat_sum, pick_cols_concat. reflexivity.
+    - destruct HV; [congruence|discriminate].
+  Qed.
+
+  Lemma met_select_rows_parts : forall ws (m : cellmat) ixs poss, rect_w ws m -> valid_parts (length m) ixs poss ->
+    mapM (fun ix => select A _ (met_kernels A) (met_of_cells ws m) ix 0) ixs
+    = Some (map (met_of_cells ws) (map (fun pos => pick_rows pos m) poss)).
+  Proof.
+    intros ws m ixs poss H HV. induction HV as [|ix pos ixs poss Hix HV IH]; [reflexivity|].
+    cbn [mapM map]. rewrite IH.
+    rewrite (met_select_refines_proof A ws m ix 0 H ltac:(lia)). cbn [Nat.eqb]. rewrite Hix. reflexivity.
+  Qed.
+
+  Lemma met_cat_row_selections : forall ws (m : cellmat) ixs poss, rect_w ws m -> ixs <> [] ->
+    valid_parts (length m) ixs poss ->
+    (parts <- mapM (fun ix => select A _ (met_kernels A) (met_of_cells ws m) ix 0) ixs ;; met_cat A parts 0%Z)
+    = Some (met_of_cells ws (pick_rows (concat poss) m)).
+  Proof.
+    intros ws m ixs poss H Hne HV. rewrite (met_select_rows_parts ws m ixs poss H HV). cbn [obind].
+    rewrite met_cat_dim0, met_cat0_canon, <- pick_rows_concat; auto.
+    destruct HV; [congruence|discriminate].
+  Qed.
+
+  Lemma met_select_cols_parts : forall ws (m : cellmat) ixs poss, rect_w ws m -> valid_parts (length ws) ixs poss ->
+    mapM (fun ix => select A _ (met_kernels A) (met_of_cells ws m) ix 1) ixs
+    = Some (map met_of_pair (map (fun pos => (map (fun j => nth j ws 0) pos, pick_cols pos m)) poss)).
+  Proof.
+    intros ws m ixs poss H HV. induction HV as [|ix pos ixs poss Hix HV IH]; [reflexivity|].
+    cbn [mapM map]. rewrite IH.
+    rewrite (met_select_refines_proof A ws m ix 1 H ltac:(lia)). cbn [Nat.eqb]. rewrite Hix. reflexivity.
+  Qed.
+
+  Lemma met_cat_col_selections : forall ws (m : cellmat) ixs poss, rect_w ws m -> ixs <> [] ->
+    valid_parts (length ws) ixs poss ->
+    (parts <- mapM (fun ix => select A _ (met_kernels A) (met_of_cells ws m) ix 1) ixs ;; met_cat A parts 1%Z)
+    = Some (met_of_cells (map (fun j => nth j ws 0) (concat poss)) (pick_cols (concat poss) m)).
+  Proof.
+    intros ws m ixs poss H Hne HV. rewrite (met_select_cols_parts ws m ixs poss H HV). cbn [obind].
+    rewrite met_cat_dim1, (met_cat1_canon (length m)).
+    - rewrite !map_map. cbn [fst snd]. rewrite pick_cols_concat, <- concat_map. reflexivity.
+    - destruct HV; [congruence|discriminate].
+    - apply Forall_forall. intros p Hp. apply in_map_iff in Hp. destruct Hp as [pos [<- _]].
+      cbn [snd]. apply pick_cols_length.
+  Qed.
+
+  Lemma pick_ws_all : forall ws : list nat, map (fun j => nth j ws 0) (seq 0 (length ws)) = ws.
+  Proof. intros. symmetry. apply map_nth_seq. Qed.
+
+  (* -------------------------------------------------------------- *)
+  (* pointwise readings of the two nested-list references *)
+  Lemma upd_nth_other : forall {B} (f : B -> B) j j' (l : list B) d, j' <> j -> nth j' (upd_nth f j l) d = nth j' l d.
+  Proof.
+    intros B f j j' l d Hne. unfold upd_nth. rewrite <- (firstn_skipn j l) at 3.
+    destruct (Nat.lt_ge_cases j' (length (firstn j l))) as [Hlt|Hge].
+    - rewrite !app_nth1 by assumption. reflexivity.
+    - rewrite !app_nth2 by assumption. destruct (skipn j l) as [|x r] eqn:E; [reflexivity|].
+      assert (Hj : length (firstn j l) = j).
+      { apply firstn_length_le. assert (length (skipn j l) > 0) by (rewrite E; simpl; lia).
+        rewrite skipn_length in *. lia. }
+      rewrite Hj in *. destruct (j' - j) eqn:E2; [lia|]. reflexivity.
+  Qed.
+
+  Lemma upd_nth_same : forall {B} (f : B -> B) j (l : list B) d, j < length l -> nth j (upd_nth f j l) d = f (nth j l d).
+  Proof.
+    intros B f j l d H. unfold upd_nth. rewrite (skipn_nth_cons l j d) by assumption.
+    rewrite app_nth2 by (rewrite firstn_length; lia). rewrite firstn_length.
+    replace (j - Nat.min j (length l)) with 0 by lia. reflexivity.
+  Qed.
+
+  Lemma fill_cells_row : forall is_na (fill : A) j (m : cellmat) i,
+    nth i (fill_cells is_na fill j m) [] = upd_nth (map (fill_na A is_na fill)) j (nth i m []).
+  Proof.
+    intros. unfold fill_cells.
+    assert (Hnil : upd_nth (map (fill_na A is_na fill)) j (@nil (list A)) = []) by (destruct j; reflexivity).
+    destruct (Nat.lt_ge_cases i (length m)) as [Hlt|Hge].
+    - rewrite (nth_indep _ [] (upd_nth (map (fill_na A is_na fill)) j [])) by (rewrite map_length; assumption).
+      apply map_nth.
+    - rewrite !nth_overflow by (try rewrite map_length; assumption). symmetry. exact Hnil.
+  Qed.
+
+  Lemma fill_cells_other : forall is_na (fill : A) j j' (m : cellmat) i, j' <> j ->
+    nth j' (nth i (fill_cells is_na fill j m) []) [] = nth j' (nth i m []) [].
+  Proof. intros. rewrite fill_cells_row. apply upd_nth_other. assumption. Qed.
+
+  Lemma fill_cells_same : forall is_na (fill : A) j (m : cellmat) i, j < length (nth i m []) ->
+    nth j (nth i (fill_cells is_na fill j m) []) [] = map (fill_na A is_na fill) (nth j (nth i m []) []).
+  Proof. intros. rewrite fill_cells_row. apply upd_nth_same. assumption. Qed.
+
+  Lemma pad_cells_cell : forall (fill : A) (m : cellmat) i j, i < length m -> j < length (nth i m []) ->
+    let L := list_max (map (@length A) (concat m)) in
+    let cell := nth j (nth i m []) [] in
+    nth j (nth i (pad_cells fill m) []) [] = cell ++ repeat fill (L - length cell)
+    /\ length cell <= L.
+  Proof.
+    intros fill m i j Hi Hj L cell. split.
+    - unfold pad_cells. fold L. set (padf := fun c : list A => c ++ repeat fill (L - length c)).
+      rewrite (nth_indep (map (map padf) m) [] (map padf [])) by (rewrite map_length; assumption).
+      rewrite (map_nth (map padf)).
+      rewrite (nth_indep (map padf (nth i m [])) [] (padf [])) by (rewrite map_length; assumption).
+      rewrite (map_nth padf). reflexivity.
+    - assert (E : Forall (fun x => x <= L) (map (@length A) (concat m))) by (apply list_max_le; unfold L; lia).
+      rewrite Forall_map, Forall_forall in E. apply E. apply in_concat. exists (nth i m []).
+      split; apply nth_In; assumption.
+  Qed.
+
+  Lemma pad_cells_nth : forall (fill : A) (m : cellmat) i j k, i < length m -> j < length (nth i m []) ->
+    nth k (nth j (nth i (pad_cells fill m) []) []) fill = nth k (nth j (nth i m []) []) fill
+    /\ length (nth j (nth i (pad_cells fill m) []) []) = list_max (map (@length A) (concat m)).
+  Proof.
+    intros fill m i j k Hi Hj. destruct (pad_cells_cell fill m i j Hi Hj) as [E Hle]. cbv zeta in E, Hle.
+    rewrite E. split.
+    - destruct (Nat.lt_ge_cases k (length (nth j (nth i m []) []))) as [Hlt|Hge].
+      + apply app_nth1. assumption.
+      + rewrite app_nth2 by assumption. rewrite (nth_overflow (nth j (nth i m []) [])) by assumption.
+        apply nth_repeat.
+    - rewrite app_length, repeat_length. lia.
+  Qed.
+
+  (* -------------------------------------------------------------- *)
+  (* split / cat round trips *)
+  Lemma mnt_roundtrip_rows : forall c (m : cellmat) ixs poss, rect c m -> ixs <> [] ->
+    valid_parts (length m) ixs poss -> concat poss = seq 0 (length m) ->
+    (parts <- mapM (fun ix => select A _ (mnt_kernels A) (mnt_of_cells c m) ix 0) ixs ;;
+     mnt_cat A junk_o junk_v parts 0%Z) = Some (mnt_of_cells c m).
+  Proof.
+    intros c m ixs poss H Hne HV Hid. rewrite (mnt_cat_row_selections c m ixs poss H Hne HV), Hid, pick_rows_all.
+    reflexivity.
+  Qed.
+
+  Lemma mnt_roundtrip_cols : forall c (m : cellmat) ixs poss, rect c m -> ixs <> [] ->
+    valid_parts c ixs poss -> concat poss = seq 0 c ->
+    (parts <- mapM (fun ix => select A _ (mnt_kernels A) (mnt_of_cells c m) ix 1) ixs ;;
+     mnt_cat A junk_o junk_v parts 1%Z) = Some (mnt_of_cells c m).
+  Proof.
+    intros c m ixs poss H Hne HV Hid. rewrite (mnt_cat_col_selections c m ixs poss H Hne HV), Hid, seq_length.
+    rewrite (pick_cols_all c m H). reflexivity.
+  Qed.
+
+  Lemma met_roundtrip_rows : forall ws (m : cellmat) ixs poss, rect_w ws m -> ixs <> [] ->
+    valid_parts (length m) ixs poss -> concat poss = seq 0 (length m) ->
+    (parts <- mapM (fun ix => select A _ (met_kernels A) (met_of_cells ws m) ix 0) ixs ;; met_cat A parts 0%Z)
+    = Some (met_of_cells ws m).
+  Proof.
+    intros ws m ixs poss H Hne HV Hid. rewrite (met_cat_row_selections ws m ixs poss H Hne HV), Hid, pick_rows_all.
+    reflexivity.
+  Qed.
+
+  Lemma rect_w_rect : forall ws (m : cellmat), rect_w ws m -> rect (length ws) m.
+  Proof.
+    intros ws m H. unfold rect, rect_w in *. eapply Forall_impl; [|exact H].
+    intros r Hr. rewrite <- Hr, map_length. reflexivity.
+  Qed.
+
+  Lemma met_roundtrip_cols : forall ws (m : cellmat) ixs poss, rect_w ws m -> ixs <> [] ->
+    valid_parts (length ws) ixs poss -> concat poss = seq 0 (length ws) ->
+    (parts <- mapM (fun ix => select A _ (met_kernels A) (met_of_cells ws m) ix 1) ixs ;; met_cat A parts 1%Z)
+    = Some (met_of_cells ws m).
+  Proof.
+    intros ws m ixs poss H Hne HV Hid. rewrite (met_cat_col_selections ws m ixs poss H Hne HV), Hid, pick_ws_all.
+    rewrite (pick_cols_all (length ws) m (rect_w_rect ws m H)). reflexivity.
+  Qed.
+
+  Lemma met_from_cells_nocols : forall (m : cellmat), met_from_cells A ([] :: m) = None.
+  Proof. reflexivity. Qed.
 End Proofs.
